@@ -21,27 +21,46 @@ def sh(cmd, cwd=None, env=None, timeout=1800):
     return p.returncode, p.stdout
 
 
-def run_demo(wt, mdir, meta):
+def clean_untracked_tests(wt):
+    rc, out = sh("git ls-files --others --exclude-standard", cwd=wt)
+    for f in out.split():
+        if f.endswith("_test.go") or "/seeddemo" in f or f.startswith("seeddemo"):
+            try:
+                os.remove(os.path.join(wt, f))
+            except OSError:
+                pass
+
+
+def run_demo_once(wt, mdir, meta):
     d = meta.get("demo", {})
     pkg = d.get("pkg_dir", ".")
-    copied = []
-    for f in os.listdir(mdir):
-        if f.endswith("_test.go") or (f.endswith(".go") and d.get("kind") == "program"):
-            dst = os.path.join(wt, pkg, f) if f.endswith("_test.go") else None
-            if dst:
-                shutil.copyfile(os.path.join(mdir, f), dst)
-                copied.append(dst)
     cmd = d.get("run", "")
     cmd = re.sub(r"/tmp/seed/C\d+", wt, cmd)
-    cmd = cmd.replace("{WT}", wt)
+    cmd = re.sub(r"/tmp/seedout/C\d+/m\d+", mdir, cmd)
     if not cmd:
         return None, "no demo command"
-    if d.get("kind") == "program" and "go run" in cmd and mdir not in cmd:
-        pass
-    rc, out = sh(cmd, cwd=wt, timeout=900)
-    for c in copied:
-        os.remove(c)
+    if "cp " in cmd:
+        cwd = mdir          # the command copies the demonstration itself (relative to the mutation directory)
+    else:
+        cwd = wt
+        for f in os.listdir(mdir):
+            if f.endswith("_test.go"):
+                shutil.copyfile(os.path.join(mdir, f), os.path.join(wt, pkg, f))
+    rc, out = sh(cmd, cwd=cwd, timeout=900)
+    clean_untracked_tests(wt)
     return rc, out[-3000:]
+
+
+def run_demo(wt, mdir, meta, want_pass):
+    """Runs the demonstration against the tree `wt` (the recorded command refers to the seeding worktree; it is
+    rewritten). Socket-level demonstrations can flake under load: when a pass is wanted, retry twice."""
+    rc, out = run_demo_once(wt, mdir, meta)
+    tries = 0
+    while want_pass and rc not in (0, None) and tries < 2:
+        time.sleep(1)
+        rc, out = run_demo_once(wt, mdir, meta)
+        tries += 1
+    return rc, out
 
 
 def main():
@@ -67,7 +86,7 @@ def main():
     try:
         patch = os.path.join(mdir, "patch.diff")
         if not a.skip_confirm:
-            rc0, out0 = run_demo(wt, mdir, meta)
+            rc0, out0 = run_demo(wt, mdir, meta, True)
             res["demo_clean_rc"] = rc0
             if rc0 != 0:
                 res["demo_clean_out"] = out0
@@ -82,7 +101,7 @@ def main():
         if rc != 0:
             res["build_out"] = out[-2000:]
         if not a.skip_confirm:
-            rc1, out1 = run_demo(wt, mdir, meta)
+            rc1, out1 = run_demo(wt, mdir, meta, False)
             res["demo_patched_rc"] = rc1
             res["demo_patched_tail"] = (out1 or "")[-600:]
             rcd, outd = sh("git diff --name-only", cwd=wt)
